@@ -448,7 +448,11 @@ func (c *FnCtx) safeEvalBool(e *SpecEnv, cl *Clause) (t Term) {
 }
 
 // applyModifies havocs the locations named in the callee's modifies clause.
-func (c *FnCtx) applyModifiesEnv(fr *Frame, st *State, env *SpecEnv, ct *FuncContract) {
+func (c *FnCtx) applyModifiesEnv(fr *Frame, st *State, env0 *SpecEnv, ct *FuncContract) {
+	// every location is evaluated in the pre-state, whatever the order of the entries
+	envCopy := *env0
+	envCopy.st = st.clone()
+	env := &envCopy
 	if !ct.HasMods {
 		ms := newModSet()
 		ms.all = true
@@ -513,6 +517,10 @@ func (c *FnCtx) applyModifiesEnv(fr *Frame, st *State, env *SpecEnv, ct *FuncCon
 						c.havocMap(st, env, call.Args[0])
 						return
 					}
+					if id, ok := call.Fun.(*ast.Ident); ok && id.Name == "elems" && len(call.Args) == 1 {
+						c.havocElems(st, env, call.Args[0])
+						return
+					}
 				}
 				loc := env.evalLoc(m.Expr)
 				c.havocLoc(st, loc, 0)
@@ -521,7 +529,25 @@ func (c *FnCtx) applyModifiesEnv(fr *Frame, st *State, env *SpecEnv, ct *FuncCon
 	}
 }
 
-// havocMap: `modifies map(m)`: the contents of one map object.
+// havocElems: `modifies elems(s)`: the backing array of slice s.
+func (c *FnCtx) havocElems(st *State, env *SpecEnv, x ast.Expr) {
+	v, t := env.eval(x)
+	sl, ok := v.(Sl)
+	slT, ok2 := t.Underlying().(*types.Slice)
+	if !ok || !ok2 {
+		env.fail("elems(): not a slice")
+	}
+	et := slT.Elem()
+	prefix := "elem$" + typeKey(et)
+	for _, lf := range c.leaves(et) {
+		name := prefix + lf.Suffix
+		h := c.heapGet(st, name, c.heapSort(lf.Sort, true))
+		c.heapSet(st, name, c.vc.Name("h", Store(h, sl.Arr, c.vc.Fresh("mod$elems", SArr(SInt, lf.Sort)))))
+		c.noteWrite(st, name, &Loc{Prefix: prefix, Idx: sl.Arr, T: et})
+	}
+}
+
+// havocMap: `modifies mapof(m)`: the contents of one map object.
 func (c *FnCtx) havocMap(st *State, env *SpecEnv, x ast.Expr) {
 	v, t := env.eval(x)
 	m, ok := t.Underlying().(*types.Map)
@@ -767,6 +793,18 @@ func (c *FnCtx) buildFrameSpec(fr *Frame, st *State) {
 						if structOf(loc.T) == nil {
 							for _, lf := range c.leaves(loc.T) {
 								fs.locs[loc.Prefix+lf.Suffix] = append(fs.locs[loc.Prefix+lf.Suffix], *loc)
+							}
+						}
+						return
+					}
+					if id, ok := call.Fun.(*ast.Ident); ok && id.Name == "elems" && len(call.Args) == 1 {
+						v, t := env.eval(call.Args[0])
+						if sl, ok := v.(Sl); ok {
+							if slT, ok := t.Underlying().(*types.Slice); ok {
+								prefix := "elem$" + typeKey(slT.Elem())
+								for _, lf := range c.leaves(slT.Elem()) {
+									fs.locs[prefix+lf.Suffix] = append(fs.locs[prefix+lf.Suffix], Loc{Prefix: prefix, Idx: sl.Arr})
+								}
 							}
 						}
 						return
@@ -1048,9 +1086,9 @@ func (c *FnCtx) appendOp(fr *Frame, st *State, cc *ssa.CallCommon, args []SV) SV
 	return res
 }
 
-// appendElems updates the element heaps for an append. For statically short appended slices
-// (varargs built by the compiler: length known constant) elements are written one by one,
-// otherwise a quantified fact describes the new array.
+// appendElems updates the element heaps for an append: a fresh inner array `nw` described by
+// quantified facts (old elements kept, new elements appended, everything else unchanged when
+// the append happens in place).
 func (c *FnCtx) appendElems(st *State, et types.Type, old Sl, res Sl, add SV, inPlace Term, addLen Term) {
 	leaves := c.leaves(et)
 	if structOf(et) != nil {
@@ -1065,21 +1103,26 @@ func (c *FnCtx) appendElems(st *State, et types.Type, old Sl, res Sl, add SV, in
 		inner := SArr(SInt, lf.Sort)
 		dstOld := Select(h, res.Arr, inner)
 		nw := c.vc.Fresh("app$"+lf.Suffix, inner)
-		// 1. positions before the old length keep the old slice's elements
 		srcArr := Select(h, old.Arr, inner)
-		c.vc.Assert(Term{fmt.Sprintf("(forall ((i Int)) (! (=> (and (<= 0 i) (< i %s)) (= (select %s (+ %s i)) (select %s (+ %s i)))) :pattern ((select %s (+ %s i)))))",
-			old.Len.S, nw.S, res.Off.S, srcArr.S, old.Off.S, nw.S, res.Off.S), SBool})
+		// 1. positions before the old length keep the old slice's elements
+		dI := c.ixS(res.Off.S, "i")
+		c.vc.Assert(Term{fmt.Sprintf("(forall ((i Int)) (! (=> (and (<= 0 i) (< i %s)) (= (select %s %s) (select %s %s))) :pattern ((select %s %s))))",
+			old.Len.S, nw.S, dI, srcArr.S, c.ixS(old.Off.S, "i"), nw.S, dI), SBool})
 		// 2. appended elements
+		dA := c.ixS(res.Off.S, "(+ "+old.Len.S+" i)")
 		switch a := add.(type) {
 		case Sl:
 			addArr := Select(h, a.Arr, inner)
-			c.vc.Assert(Term{fmt.Sprintf("(forall ((i Int)) (! (=> (and (<= 0 i) (< i %s)) (= (select %s (+ %s %s i)) (select %s (+ %s i)))) :pattern ((select %s (+ %s %s i)))))",
-				addLen.S, nw.S, res.Off.S, old.Len.S, addArr.S, a.Off.S, nw.S, res.Off.S, old.Len.S), SBool})
+			c.vc.Assert(Term{fmt.Sprintf("(forall ((i Int)) (! (=> (and (<= 0 i) (< i %s)) (= (select %s %s) (select %s %s))) :pattern ((select %s %s))))",
+				addLen.S, nw.S, dA, addArr.S, c.ixS(a.Off.S, "i"), addArr.S, c.ixS(a.Off.S, "i")), SBool})
+			// the same fact indexed by destination position (trigger on the new array)
+			c.vc.Assert(Term{fmt.Sprintf("(forall ((k Int)) (! (=> (and (<= %s k) (< k %s)) (= (select %s %s) (select %s %s))) :pattern ((select %s %s))))",
+				old.Len.S, res.Len.S, nw.S, c.ixS(res.Off.S, "k"), addArr.S, c.ixS(a.Off.S, "(- k "+old.Len.S+")"), nw.S, c.ixS(res.Off.S, "k")), SBool})
 		case Sc:
 			if lf.Sort == SInt {
 				sa := c.vc.Declare("strat", []Sort{SStr, SInt}, SInt)
-				c.vc.Assert(Term{fmt.Sprintf("(forall ((i Int)) (! (=> (and (<= 0 i) (< i %s)) (= (select %s (+ %s %s i)) (%s %s i))) :pattern ((select %s (+ %s %s i)))))",
-					addLen.S, nw.S, res.Off.S, old.Len.S, sa, a.T.S, nw.S, res.Off.S, old.Len.S), SBool})
+				c.vc.Assert(Term{fmt.Sprintf("(forall ((k Int)) (! (=> (and (<= %s k) (< k %s)) (= (select %s %s) (%s %s (- k %s)))) :pattern ((select %s %s))))",
+					old.Len.S, res.Len.S, nw.S, c.ixS(res.Off.S, "k"), sa, a.T.S, old.Len.S, nw.S, c.ixS(res.Off.S, "k")), SBool})
 			}
 		}
 		// 3. in place: everything outside [off+oldLen, off+newLen) is unchanged
@@ -1105,8 +1148,8 @@ func (c *FnCtx) copyElems(st *State, et types.Type, dst Sl, src SV, n Term) {
 		nw := c.vc.Fresh("cpy$"+lf.Suffix, inner)
 		if s, ok := src.(Sl); ok {
 			srcArr := Select(h, s.Arr, inner)
-			c.vc.Assert(Term{fmt.Sprintf("(forall ((i Int)) (! (=> (and (<= 0 i) (< i %s)) (= (select %s (+ %s i)) (select %s (+ %s i)))) :pattern ((select %s (+ %s i)))))",
-				n.S, nw.S, dst.Off.S, srcArr.S, s.Off.S, nw.S, dst.Off.S), SBool})
+			c.vc.Assert(Term{fmt.Sprintf("(forall ((i Int)) (! (=> (and (<= 0 i) (< i %s)) (= (select %s %s) (select %s %s))) :pattern ((select %s %s))))",
+				n.S, nw.S, c.ixS(dst.Off.S, "i"), srcArr.S, c.ixS(s.Off.S, "i"), nw.S, c.ixS(dst.Off.S, "i")), SBool})
 		}
 		c.vc.Assert(Term{fmt.Sprintf("(forall ((j Int)) (! (=> (or (< j %s) (>= j (+ %s %s))) (= (select %s j) (select %s j))) :pattern ((select %s j))))",
 			dst.Off.S, dst.Off.S, n.S, nw.S, dstOld.S, nw.S), SBool})
